@@ -1,6 +1,6 @@
 (* Property C04 - nodes that have seen the same blocks agree on the heaviest chain.
    Statements only; proofs in Proofs/ForkChoice.v. *)
-From Virel Require Import Lib.Config Lib.U64 Lib.AMap Model.Ledger Model.Node Proofs.NodeBasics Proofs.ForkChoice Gen.Params.
+From Virel Require Import Lib.Config Lib.U64 Lib.AMap Model.Ledger Model.Node Proofs.NodeBasics Proofs.ForkChoice Proofs.Agreement Gen.Params.
 Open Scope N_scope.
 
 (* For every configuration, every genesis, and EVERY sequence of deliveries (any blocks - valid, invalid, forked,
@@ -14,6 +14,23 @@ Theorem C04_tip_always_maximal : forall cfg genesis_addr team_key g n0 ops,
   (forall h b, get_block n h = Some b -> b_cd b <= top_cd n).
 Proof. exact tip_always_maximal. Qed.
 Print Assumptions C04_tip_always_maximal.
+
+(* AGREEMENT: two nodes started from the same genesis that were handed blocks in ANY two orders (with any clocks,
+   duplicates, invalid or orphaned blocks in between) and ended up storing the same blocks have main chains of the same
+   cumulative difficulty; when a single stored block reaches that cumulative difficulty they have the same tip, hence
+   - the tip determining its ancestors - the same main chain.  (With two stored blocks of the same maximal cumulative
+   difficulty the code keeps the one it connected first: the tie is broken by arrival order, which the property's
+   "heaviest chain" leaves open; the correspondence run reports such states through the ambiguity flag.) *)
+Theorem C04_agreement : forall cfg genesis_addr team_key g n0 ops1 ops2,
+  node0 cfg genesis_addr g = Ok n0 -> b_cd g = b_diff g ->
+  let n1 := run cfg genesis_addr team_key n0 ops1 in
+  let n2 := run cfg genesis_addr team_key n0 ops2 in
+  (forall h, get_block n1 h = get_block n2 h) ->
+  top_cd n1 = top_cd n2 /\
+  ((forall h h' b b', get_block n1 h = Some b -> get_block n1 h' = Some b' ->
+                      b_cd b = top_cd n1 -> b_cd b' = top_cd n1 -> h = h') -> top n1 = top n2).
+Proof. exact agreement. Qed.
+Print Assumptions C04_agreement.
 
 (* the invariant is inductive for single deliveries as well (used by the other node-level properties) *)
 Theorem C04_deliver_preserves_invariant : forall cfg genesis_addr team_key n b now n' out amb,
